@@ -244,3 +244,32 @@ Proof.
   - injection E as E. simpl. revert k' E. induction H as [|x k Hx Hk IH]; intros [|y k'] E; simpl in E; try discriminate; auto.
     injection E as E1 E2. simpl. rewrite (Hx y E1), (IH k' E2). reflexivity.
 Qed.
+(* same counts, same frame; s2 marks a sequence active only if it holds something; s1 satisfies the invariant: whatever s1 does not require,
+   s2 does not require either *)
+Lemma required_mono : forall s2 s1, erase s2 = erase s1 -> shape s2 = shape s1 -> Exact s2 -> Inv s1 ->
+  forall act2 act1, (act2 = true -> act1 = true) -> required act1 s1 = [] -> required act2 s2 = [].
+Proof.
+  induction s2 using sst_ind2; intros s1 E Sh X I act2 act1 A R; destruct s1 as [b' mn' mx' it'|o' a' k']; simpl in E, Sh; try discriminate.
+  - injection E as -> -> -> L. simpl in *. rewrite L. destruct act2; simpl; auto. rewrite (A eq_refl) in R. simpl in R. exact R.
+  - injection E as E. injection Sh as -> Sh. apply Exact_node in X as [Xa Xk]. apply Inv_node in I as [Ia Ik]. cbn [required] in *.
+    assert (NE: nonempty (NodeS o' a k) = nonempty (NodeS o' a' k')) by (apply nonempty_erase; simpl; f_equal; exact E).
+    assert (A': (act2 && (negb o' || a))%bool = true -> (act1 && (negb o' || a'))%bool = true).
+    { intros H2. apply andb_true_iff in H2 as [H2 H3]. rewrite (A H2). simpl. destruct o'; simpl in *; auto.
+      apply Ia. rewrite <- NE. apply Xa. exact H3. }
+    clear NE Xa Ia A. revert Xk k' E Sh Ik R. induction H as [|x k Hx Hk IH]; intros Xk k' E Sh Ik R; destruct k' as [|y k']; simpl in E, Sh; try discriminate; auto.
+    injection E as E1 E2. injection Sh as S1 S2. inversion Xk as [|? ? Xx Xr]; subst. inversion Ik as [|? ? Iy Ir]; subst. simpl in R. apply app_eq_nil in R as [R1 R2].
+    simpl. rewrite (Hx y E1 S1 Xx Iy _ _ A' R1). simpl. apply (IH Xr k' E2 S2 Ir R2).
+Qed.
+(* C11, verdict: after a removal the final check is never MORE permissive than on the fresh element given the remaining children - the
+   discrepancy that the sticky activation causes is one-sided (for every template of the sequence class) *)
+Theorem C11_verdict_one_sided t ops k c b : NoDup (alpha_t t) -> nth_error (ins (mrun t ops)) k = Some (c, b) ->
+  let s1 := fst (mstep (mrun t ops) (MRemove k)) in
+  forall s2, addw (map snd (ins s1)) 0 (init t) = Some s2 -> erase s2 = erase (tree s1) ->
+  verdict_ok s1 = true -> required true s2 = [].
+Proof.
+  intros ND E s1 s2 A EE V.
+  assert (MI: MInv t s1) by (apply mstep_inv; apply mrun_inv). destruct MI as (I1 & Sh1 & _).
+  destruct (addw_ok _ _ _ _ A (Inv_init t)) as [_ S2]. rewrite shape_init in S2.
+  apply (required_mono s2 (tree s1) EE (eq_trans S2 (eq_sym Sh1)) (addw_Exact _ _ _ _ A (Exact_init t)) I1 true true (fun H => H)).
+  unfold verdict_ok in V. destruct (required true (tree s1)); auto; discriminate.
+Qed.
